@@ -345,6 +345,19 @@ def mutate(rng, asset, assets, cache):
     if path not in cache:
         cache[path] = layout_of(b, kind)
     F, B = cache[path]
+    if kind == "pe" and rng.chance(1, 3):
+        # .NET assemblies: token-graph mutations (self / mutually referential metadata tokens)
+        key = ("net", path)
+        if key not in cache:
+            cache[key] = net_parse(b) is not None
+        if cache[key]:
+            m = mutate_dotnet(rng, b)
+            if m:
+                return "dotnet-tokens", m[1], m[0]
+    if kind in ("pe", "elf", "macho", "fat") and rng.chance(1, 10):
+        m = entry_extremes(rng, b, kind, F)
+        if m:
+            return "entry-extreme", m[1], m[0]
     r = rng.below(100)
     if F and r < 52:
         # 1–3 header fields overwritten with boundary values / ±1
@@ -795,3 +808,394 @@ def stream_rules(rng, layout, first_tag):
         f = fns[0] if k == 0 else rng.choice(fns)
         rules.append({"tag": "%s%d" % (first_tag, k), "imports": [f.split(".")[0]], "cond": f % (start, ln)})
     return rules
+
+
+# ------------------------------------------------------------------------------------------------ .NET metadata
+# ECMA-335 II.22 table schemas: enough to locate every row and column of the `#~` stream, so that mutations can make
+# metadata tokens self- or mutually-referential (TypeSpec -> TypeSpec, Extends cycles, nested-class cycles, …) instead
+# of only perturbing bytes.  Column kinds: 2 / 4 fixed, "S" #Strings, "G" #GUID, "B" #Blob, ("T", table), ("C", coded).
+NET_CODED = {
+    "TypeDefOrRef": (2, [0x02, 0x01, 0x1B]),
+    "HasConstant": (2, [0x04, 0x08, 0x17]),
+    "HasCustomAttribute": (5, [0x06, 0x04, 0x01, 0x02, 0x08, 0x09, 0x0A, 0x00, 0x0E, 0x17, 0x14, 0x11, 0x1A, 0x1B, 0x20,
+                               0x23, 0x26, 0x27, 0x28, 0x2A, 0x2C, 0x2B]),
+    "HasFieldMarshal": (1, [0x04, 0x08]),
+    "HasDeclSecurity": (2, [0x02, 0x06, 0x20]),
+    "MemberRefParent": (3, [0x02, 0x01, 0x1A, 0x06, 0x1B]),
+    "HasSemantics": (1, [0x14, 0x17]),
+    "MethodDefOrRef": (1, [0x06, 0x0A]),
+    "MemberForwarded": (1, [0x04, 0x06]),
+    "Implementation": (2, [0x26, 0x23, 0x27]),
+    "CustomAttributeType": (3, [None, None, 0x06, 0x0A, None]),
+    "ResolutionScope": (2, [0x00, 0x1A, 0x23, 0x01]),
+    "TypeOrMethodDef": (1, [0x02, 0x06]),
+}
+T, C = (lambda t: ("T", t)), (lambda c: ("C", c))
+NET_TABLES = {
+    0x00: ("Module", [2, "S", "G", "G", "G"]),
+    0x01: ("TypeRef", [C("ResolutionScope"), "S", "S"]),
+    0x02: ("TypeDef", [4, "S", "S", C("TypeDefOrRef"), T(0x04), T(0x06)]),
+    0x03: ("FieldPtr", [T(0x04)]),
+    0x04: ("Field", [2, "S", "B"]),
+    0x05: ("MethodPtr", [T(0x06)]),
+    0x06: ("MethodDef", [4, 2, 2, "S", "B", T(0x08)]),
+    0x07: ("ParamPtr", [T(0x08)]),
+    0x08: ("Param", [2, 2, "S"]),
+    0x09: ("InterfaceImpl", [T(0x02), C("TypeDefOrRef")]),
+    0x0A: ("MemberRef", [C("MemberRefParent"), "S", "B"]),
+    0x0B: ("Constant", [2, C("HasConstant"), "B"]),
+    0x0C: ("CustomAttribute", [C("HasCustomAttribute"), C("CustomAttributeType"), "B"]),
+    0x0D: ("FieldMarshal", [C("HasFieldMarshal"), "B"]),
+    0x0E: ("DeclSecurity", [2, C("HasDeclSecurity"), "B"]),
+    0x0F: ("ClassLayout", [2, 4, T(0x02)]),
+    0x10: ("FieldLayout", [4, T(0x04)]),
+    0x11: ("StandAloneSig", ["B"]),
+    0x12: ("EventMap", [T(0x02), T(0x14)]),
+    0x13: ("EventPtr", [T(0x14)]),
+    0x14: ("Event", [2, "S", C("TypeDefOrRef")]),
+    0x15: ("PropertyMap", [T(0x02), T(0x17)]),
+    0x16: ("PropertyPtr", [T(0x17)]),
+    0x17: ("Property", [2, "S", "B"]),
+    0x18: ("MethodSemantics", [2, T(0x06), C("HasSemantics")]),
+    0x19: ("MethodImpl", [T(0x02), C("MethodDefOrRef"), C("MethodDefOrRef")]),
+    0x1A: ("ModuleRef", ["S"]),
+    0x1B: ("TypeSpec", ["B"]),
+    0x1C: ("ImplMap", [2, C("MemberForwarded"), "S", T(0x1A)]),
+    0x1D: ("FieldRVA", [4, T(0x04)]),
+    0x1E: ("EncLog", [4, 4]),
+    0x1F: ("EncMap", [4]),
+    0x20: ("Assembly", [4, 2, 2, 2, 2, 4, "B", "S", "S"]),
+    0x21: ("AssemblyProcessor", [4]),
+    0x22: ("AssemblyOS", [4, 4, 4]),
+    0x23: ("AssemblyRef", [2, 2, 2, 2, 4, "B", "S", "S", "B"]),
+    0x24: ("AssemblyRefProcessor", [4, T(0x23)]),
+    0x25: ("AssemblyRefOS", [4, 4, 4, T(0x23)]),
+    0x26: ("File", [4, "S", "B"]),
+    0x27: ("ExportedType", [4, 4, "S", "S", C("Implementation")]),
+    0x28: ("ManifestResource", [4, 4, "S", C("Implementation")]),
+    0x29: ("NestedClass", [T(0x02), T(0x02)]),
+    0x2A: ("GenericParam", [2, 2, C("TypeOrMethodDef"), "S"]),
+    0x2B: ("MethodSpec", [C("MethodDefOrRef"), "B"]),
+    0x2C: ("GenericParamConstraint", [T(0x2A), C("TypeDefOrRef")]),
+}
+
+
+def net_parse(b):
+    """Locate the metadata tables of a .NET PE.  Returns None or a dict:
+       rows {table: n}, col(table, row(1-based), colidx) -> (file offset, size), blob_off / blob_size (file offset of the
+       #Blob heap), colkind(table, colidx)."""
+    lay = pe_layout(b)
+    md = lay[3]
+    if md is None:
+        return None
+    vlen = u32(b, md + 12)
+    so = md + 16 + vlen
+    ns = u16(b, so + 2)
+    so += 4
+    streams = {}
+    for _ in range(min(ns, 16)):
+        end = b.find(b"\0", so + 8)
+        if end < 0:
+            return None
+        streams[bytes(b[so + 8:end])] = (md + u32(b, so), u32(b, so + 4))
+        so = (end + 4) & ~3
+    tb = streams.get(b"#~") or streams.get(b"#-")
+    if not tb or b"#Blob" not in streams:
+        return None
+    toff, tsize = tb
+    heapsizes = b[toff + 6]
+    valid = u64(b, toff + 8)
+    rows, o = {}, toff + 24
+    for t in range(64):
+        if valid >> t & 1:
+            if t not in NET_TABLES:
+                return None
+            rows[t] = u32(b, o)
+            o += 4
+    hs = {"S": 4 if heapsizes & 1 else 2, "G": 4 if heapsizes & 2 else 2, "B": 4 if heapsizes & 4 else 2}
+
+    def colsize(k):
+        if k in (2, 4):
+            return k
+        if k in hs:
+            return hs[k]
+        if k[0] == "T":
+            return 4 if rows.get(k[1], 0) >= 1 << 16 else 2
+        bits, tabs = NET_CODED[k[1]]
+        mx = max([rows.get(t, 0) for t in tabs if t is not None] or [0])
+        return 4 if mx >= 1 << (16 - bits) else 2
+    base, start = {}, o
+    for t in sorted(rows):
+        sizes = [colsize(k) for k in NET_TABLES[t][1]]
+        base[t] = (o, sizes)
+        o += sum(sizes) * rows[t]
+    if o > toff + tsize + 4 or o > len(b):
+        return None
+
+    def col(t, r, c):
+        bo, sizes = base[t]
+        return bo + (r - 1) * sum(sizes) + sum(sizes[:c]), sizes[c]
+    return {"rows": rows, "col": col, "blob_off": streams[b"#Blob"][0], "blob_size": streams[b"#Blob"][1],
+            "kind": lambda t, c: NET_TABLES[t][1][c], "end": o}
+
+
+def net_coded(name, table, row):
+    bits, tabs = NET_CODED[name]
+    return (row << bits) | tabs.index(table)
+
+
+def net_compressed(v):
+    if v < 0x80:
+        return bytes([v])
+    if v < 0x4000:
+        return bytes([0x80 | (v >> 8), v & 0xFF])
+    return bytes([0xC0 | (v >> 24), (v >> 16) & 0xFF, (v >> 8) & 0xFF, v & 0xFF])
+
+
+def net_blob(b, p, idx):
+    """(file offset of the blob content, length) of the blob at heap index idx"""
+    o = p["blob_off"] + idx
+    if o >= len(b):
+        return None
+    x = b[o]
+    if x < 0x80:
+        return o + 1, x
+    if x < 0xC0:
+        return o + 2, ((x & 0x3F) << 8) | b[o + 1] if o + 1 < len(b) else None
+    return None
+
+
+def mutate_dotnet(rng, b):
+    """Token-graph mutations on a .NET assembly: returns (what, edits) or None."""
+    p = net_parse(b)
+    if p is None:
+        return None
+    rows = p["rows"]
+    n_spec, n_def, n_ref = rows.get(0x1B, 0), rows.get(0x02, 0), rows.get(0x01, 0)
+
+    def rd(t, r, c):
+        o, s = p["col"](t, r, c)
+        return int.from_bytes(b[o:o + s], "little")
+
+    def wr(t, r, c, v):
+        o, s = p["col"](t, r, c)
+        return {"op": "set", "off": o, "hex": enc(v, s, False)}
+
+    def type_tok(kind=None):
+        """a TypeDefOrRef coded token, biased to TypeSpec rows"""
+        k = kind or rng.choice(["spec", "spec", "spec", "def", "ref"])
+        if k == "spec" and n_spec:
+            return net_coded("TypeDefOrRef", 0x1B, rng.range(1, n_spec))
+        if k == "ref" and n_ref:
+            return net_coded("TypeDefOrRef", 0x01, rng.range(1, n_ref))
+        if n_def:
+            return net_coded("TypeDefOrRef", 0x02, rng.range(1, n_def))
+        return 0
+
+    def type_sig(tok, depth=0):
+        c = rng.below(12)
+        t = net_compressed(tok)
+        if c < 4:
+            return bytes([rng.choice([0x12, 0x11])]) + t
+        if c < 6:
+            return bytes([0x1d]) + bytes([0x12]) + t
+        if c == 6:
+            return bytes([0x0f, 0x12]) + t
+        if c == 7:
+            return bytes([0x15, 0x12]) + t + bytes([1, 0x12]) + t
+        if c == 8:
+            return bytes([rng.choice([0x1f, 0x20])]) + t + bytes([0x12]) + t
+        if c == 9:
+            return bytes([0x10, 0x12]) + t
+        if c == 10:
+            return bytes([0x14, 0x12]) + t + bytes([1, 0, 0])
+        return bytes([0x1d] * rng.choice([2, 8, 30])) + bytes([0x12]) + t
+    edits, what = [], []
+    for _ in range(rng.choice([1, 1, 2, 3])):
+        c = rng.below(10)
+        if c < 4 and n_spec:
+            # rewrite the signature blob of a TypeSpec so that it names a TypeSpec (itself or another one)
+            j = rng.range(1, n_spec)
+            bl = net_blob(b, p, rd(0x1B, j, 0))
+            if not bl or bl[1] < 2:
+                continue
+            tok = net_coded("TypeDefOrRef", 0x1B, j if rng.chance(2, 3) else rng.range(1, n_spec))
+            sig = type_sig(tok)[:bl[1]]
+            edits.append({"op": "set", "off": bl[0], "hex": sig.hex()})
+            what.append("TypeSpec[%d].sig=%s" % (j, sig.hex()))
+            # make sure some class reaches it
+            if n_def and rng.chance(1, 2):
+                i = rng.range(1, n_def)
+                edits.append(wr(0x02, i, 3, net_coded("TypeDefOrRef", 0x1B, j)))
+                what.append("TypeDef[%d].Extends=TypeSpec[%d]" % (i, j))
+        elif c < 6 and n_def:
+            # Extends cycles: a class extending itself / a later class / a TypeSpec / a TypeRef
+            i = rng.range(1, n_def)
+            k = rng.choice(["self", "other", "spec", "ref"])
+            tok = net_coded("TypeDefOrRef", 0x02, i) if k == "self" else type_tok({"other": "def"}.get(k, k))
+            edits.append(wr(0x02, i, 3, tok))
+            what.append("TypeDef[%d].Extends=%#x" % (i, tok))
+        elif c == 6 and rows.get(0x29):
+            # nested-class cycles
+            r = rng.range(1, rows[0x29])
+            i = rng.range(1, max(1, n_def))
+            k = i if rng.chance(1, 2) else rng.range(1, max(1, n_def))
+            edits += [wr(0x29, r, 0, i), wr(0x29, r, 1, k)]
+            what.append("NestedClass[%d]=(%d,%d)" % (r, i, k))
+            if rows[0x29] > 1 and rng.chance(1, 2):
+                r2 = rng.range(1, rows[0x29])
+                edits += [wr(0x29, r2, 0, k), wr(0x29, r2, 1, i)]
+        elif c == 7 and n_ref:
+            # TypeRef whose resolution scope is a TypeRef (itself or another): nested type references
+            i = rng.range(1, n_ref)
+            k = i if rng.chance(1, 2) else rng.range(1, n_ref)
+            edits.append(wr(0x01, i, 0, net_coded("ResolutionScope", 0x01, k)))
+            what.append("TypeRef[%d].scope=TypeRef[%d]" % (i, k))
+        elif c == 8:
+            # interface / generic-constraint / member-ref parents pointing at TypeSpecs
+            cands = [(0x09, 1, "TypeDefOrRef"), (0x2C, 1, "TypeDefOrRef"), (0x0A, 0, "MemberRefParent"), (0x2A, 2, "TypeOrMethodDef")]
+            cands = [x for x in cands if rows.get(x[0])]
+            if not cands:
+                continue
+            t, col, coded = rng.choice(cands)
+            r = rng.range(1, rows[t])
+            if coded == "TypeOrMethodDef":
+                v = net_coded(coded, rng.choice([0x02, 0x06]), rng.choice([0, 1, rng.range(1, 1 + max(n_def, rows.get(0x06, 0))), 0x7FFF]))
+            elif coded == "MemberRefParent":
+                v = net_coded(coded, 0x1B, rng.range(1, max(1, n_spec)))
+            else:
+                v = type_tok()
+            edits.append(wr(t, r, col, v))
+            what.append("%s[%d].col%d=%#x" % (NET_TABLES[t][0], r, col, v))
+        else:
+            # a field / method / member-ref / property signature naming TypeSpecs
+            cands = [(0x04, 2), (0x06, 4), (0x0A, 2), (0x17, 2), (0x11, 0), (0x2B, 1)]
+            cands = [x for x in cands if rows.get(x[0])]
+            if not cands:
+                continue
+            t, col = rng.choice(cands)
+            r = rng.range(1, rows[t])
+            bl = net_blob(b, p, rd(t, r, col))
+            if not bl or bl[1] < 3:
+                continue
+            ty = type_sig(type_tok("spec"))
+            sig = (bytes([0x06]) + ty) if t == 0x04 else (bytes([rng.choice([0x00, 0x20]), 1]) + ty + ty)
+            sig = sig[:bl[1]]
+            edits.append({"op": "set", "off": bl[0], "hex": sig.hex()})
+            what.append("%s[%d].sig=%s" % (NET_TABLES[t][0], r, sig.hex()))
+    return (what, edits) if edits else None
+
+
+EXTREME32 = [0, 1, 0x7FFFFFFF, 0x80000000, 0xFFFFFFFF, 0xFFFFFFFE, 0xFFFFFF00, 0xFFFFF000]
+
+
+def pe_entry_section(b):
+    """(index, header offset) of the section the entrypoint code of evaluator/entrypoint.rs picks for the entry point:
+    among the first 60, the last one with the largest virtual address <= AddressOfEntryPoint"""
+    nt = u32(b, 0x3c)
+    if nt + 24 > len(b) or b[nt:nt + 4] != b"PE\0\0":
+        return None
+    opt = nt + 24
+    ep = u32(b, opt + 16)
+    sec = opt + u16(b, nt + 20)
+    best, bva = None, 0
+    for i in range(min(u16(b, nt + 6), 60)):
+        so = sec + 40 * i
+        if so + 40 > len(b):
+            break
+        va = u32(b, so + 12)
+        if ep >= va and bva <= va:
+            best, bva = (i, so), va
+    return best
+
+
+def entry_extremes(rng, b, kind, F):
+    """Directed mutation: the fields the entry-point computation reads (section / segment table entries around the
+    entry point, the entry point itself) := 0, 0x7FFFFFFF, 0xFFFFFFFF, …, values near the file size."""
+    vals = EXTREME32 + [len(b), len(b) - 1, len(b) + 1]
+    edits, what = [], []
+    if kind == "pe":
+        es = pe_entry_section(b)
+        nt = u32(b, 0x3c)
+        if es is None:
+            return None
+        i, so = es
+        for _ in range(rng.choice([1, 1, 2])):
+            name, off = rng.choice([("raw", so + 20), ("raw", so + 20), ("raw", so + 20), ("va", so + 12), ("vsize", so + 8),
+                                    ("rawsize", so + 16), ("entry", nt + 24 + 16)])
+            v = rng.choice(vals)
+            if name == "va":
+                v = rng.choice([0, 1, u32(b, nt + 24 + 16), u32(b, nt + 24 + 16) - 1])   # keep it the entry section
+            edits.append({"op": "set", "off": off, "hex": enc(v, 4, False)})
+            what.append("sec%d.%s=%#x" % (i, name, v & 0xFFFFFFFF) if name != "entry" else "entry=%#x" % (v & 0xFFFFFFFF))
+        return what, edits
+    # elf / macho: the table fields by name
+    if kind == "elf":
+        pool = [f for f in F if re.match(r"(ph|sh)\d+\+", f[2]) or f[2] in ("entry", "type")]
+    else:
+        pool = [f for f in F if re.match(r"lc\d+\((1|19|80000028|5)\)\+(8|12|16|20|24|28|32|36|40|44|48|52|56|60|64|68|72)$", f[2])
+                or re.match(r"fat\d+\+(8|12|16)$", f[2])]
+    if not pool:
+        return None
+    for _ in range(rng.choice([1, 2, 3])):
+        off, size, name, be = rng.choice(pool)
+        v = rng.choice(vals + ([0xFFFFFFFFFFFFFFFF, 0x7FFFFFFFFFFFFFFF] if size == 8 else []))
+        edits.append({"op": "set", "off": off, "hex": enc(v, size, be)})
+        what.append("%s=%#x" % (name, v))
+    return what, edits
+
+
+def net_long_signature(b0, content):
+    """A .NET assembly (one with a TypeSpec table) whose TypeSpec[1] signature is `content`, a new blob appended to the
+    #Blob heap (the last stream): stream size, CLI metadata size and the section bounds are enlarged, the bytes behind
+    the heap are overwritten / the file extended.  Used for signatures far longer than any compiler emits."""
+    p = net_parse(b0)
+    lay = pe_layout(b0)
+    md = lay[3]
+    b = bytearray(b0)
+    L = len(content)
+    pref = bytes([0xC0 | (L >> 24), (L >> 16) & 0xff, (L >> 8) & 0xff, L & 0xff]) if L >= 0x4000 else net_compressed(L)
+    blob = pref + content
+    start = p["blob_off"] + p["blob_size"]
+    if len(b) < start + len(blob):
+        b += bytes(start + len(blob) - len(b))
+    b[start:start + len(blob)] = blob
+    vlen = u32(b, md + 12)
+    so = md + 16 + vlen
+    ns = u16(b, so + 2)
+    so += 4
+    for _ in range(ns):
+        end = b.find(b"\0", so + 8)
+        if bytes(b[so + 8:end]) == b"#Blob":
+            struct.pack_into("<I", b, so + 4, p["blob_size"] + len(blob))
+        so = (end + 4) & ~3
+    nt = u32(b, 0x3c)
+    opt = nt + 24
+    dd = opt + (112 if u16(b, opt) == 0x20b else 96)
+    cli_rva = u32(b, dd + 8 * 14)
+    cli = None
+    for sva, vs, raw, rs in lay[2]:
+        if sva <= cli_rva < sva + max(vs, rs):
+            cli = raw + cli_rva - sva
+    struct.pack_into("<I", b, cli + 12, start + len(blob) - md)
+    sec = opt + u16(b, nt + 20)
+    raw = u32(b, sec + 20)
+    struct.pack_into("<I", b, sec + 8, len(b) - raw)
+    struct.pack_into("<I", b, sec + 16, len(b) - raw)
+    o, s = p["col"](0x1B, 1, 0)
+    b[o:o + s] = p["blob_size"].to_bytes(s, "little")
+    return bytes(b)
+
+
+def extra_synth_specs(assets):
+    """synthetic files that are not about a cap: very long / deeply nested .NET signatures"""
+    S = []
+    base = [a for a in assets if a[0].endswith("/dotnet/types.exe")]
+    if base:
+        b0 = base[0][1]
+        for n in (17, 5000, 60000):
+            S.append(("dotnet_szarray_%d" % n, (lambda n=n: net_long_signature(b0, b"\x1d" * n + b"\x08")), "dotnet", "", n))
+            S.append(("dotnet_cmod_%d" % n, (lambda n=n: net_long_signature(b0, b"\x1f\x05" * n + b"\x08")), "dotnet", "", n))
+            S.append(("dotnet_genericinst_%d" % n, (lambda n=n: net_long_signature(b0, b"\x15" * n + b"\x12\x05" + b"\x01\x08" * n)), "dotnet", "", n))
+            S.append(("dotnet_ptr_%d" % n, (lambda n=n: net_long_signature(b0, b"\x0f" * n + b"\x08")), "dotnet", "", n))
+    return S
